@@ -5,11 +5,11 @@ from . import base
 ID = 'C04'
 LEVEL = 'exploration'
 PLAN = {
-    'quick': [('synth', 22000), ('synth_cli', 6000), ('shipped', 640), ('shipped_cli', 240)],
-    'thorough': [('synth', 900000), ('synth_cli', 200000), ('shipped', 30000), ('shipped_cli', 8000)],
+    'quick': [('synth', 22000), ('synth_resolve', 5000), ('synth_cli', 6000), ('shipped', 640), ('shipped_cli', 240)],
+    'thorough': [('synth', 900000), ('synth_resolve', 200000), ('synth_cli', 200000), ('shipped', 30000), ('shipped_cli', 8000)],
 }
 DEADLINE = {'quick': 200, 'thorough': 3300}
-PROBES = ['input-only-load-then-full', 'optional-line-demanded', 'form-loaded-on-demand', 'foreign-input-read-without-participation']
+PROBES = ['solve-called-again-after-failure', 'input-only-load-then-full', 'optional-line-demanded', 'form-loaded-on-demand', 'foreign-input-read-without-participation']
 ORACLES = {'C04.model', 'C04.history', 'C04.unknown'}
 ASSUMPTIONS = [
     'closure = required lines of every participating form instance + every line read + explicitly requested lines; a form instance '
@@ -26,6 +26,11 @@ def evaluate(case, engine, acc=None):
     if engine == 'synth_cli':
         run = simrun.execute_cli(case, {'prompt': case['prompt'], 'writeback': False, 'solution': False,
                                         'interrupt': [case['refuse_at'], 'ctrlc'] if case.get('refuse_at') is not None else None})
+    elif engine == 'synth_resolve':
+        run = simrun.execute(case, again=case.get('again', []))
+        if acc is not None and getattr(run, 'first_failed', False):
+            acc.count('probe:solve-called-again-after-failure')
+            acc.count('fault:solve-called-twice')
     else:
         run = simrun.execute(case)
     r1 = simrun.model_for(case, run)
@@ -69,6 +74,14 @@ def run_one(engine, seed, acc, tier):
         # success needs every input: supply or prompt for all of them
         case['prompt'] = True
         case['refuse_at'] = None
+    if engine == 'synth_resolve':
+        # failures are what matters here: something unimplemented, missing or refused, then solve() again
+        case = gen.gen_case(seed, force_faults=rng.pick([['notimpl'], ['notimpl', 'missing'], ['missing'], ['refuse'], ['cycle'], ['notimpl', 'dup']]))
+        case['again'] = []
+        others = [f for f in case['world']['forms'] if f['name'] not in [r.split(':')[0] for r in case['requested']]]
+        if others and rng.chance(0.5):
+            o = rng.pick(others)
+            case['again'] = [f"{o['name']}:{rng.pick(['0', '1', '2'])}" if o['multi'] else o['name']]
     if engine == 'synth_cli' and len(case['world']['forms']) > 1 and len(case['requested']) == 1 and rng.chance(0.5):
         # several --form arguments
         for fs in case['world']['forms'][1:]:
